@@ -83,15 +83,17 @@ def run_driver(src_root, facts_dir, target_dir, extra_args=(), features=None, pa
     return r.returncode, r.stdout
 
 
-def ensure_facts(force=False, repo=REPO, cache=CACHE, quiet=False):
+def ensure_facts(force=False, repo=None, cache=None, quiet=False):
     """Returns (facts_dir, info dict).  Raises RuntimeError when extraction fails."""
+    repo = repo or os.environ.get('VERIF_REPO', '/repo')
+    cache = cache or os.environ.get('VERIF_CACHE', os.path.join(VERIF, '.cache'))
     os.makedirs(cache, exist_ok=True)
     lock = open(os.path.join(cache, 'lock'), 'w')
     fcntl.flock(lock, fcntl.LOCK_EX)
     try:
         build_driver()
         facts_dir = os.path.join(cache, 'facts')
-        target_dir = os.path.join(cache, 'target')
+        target_dir = os.environ.get('VERIF_TARGET_DIR', os.path.join(cache, 'target'))
         stamp_file = os.path.join(cache, 'facts.stamp')
         h, nfiles = source_hash(repo)
         dh = hashlib.sha256(open(DRIVER, 'rb').read()).hexdigest()
